@@ -323,9 +323,12 @@ class PeriodicMessageTask:
         """
         self.bus = bus
         self.period = period
+        # The message needs its own copy of the data: if it shared the caller's
+        # buffer, update() could not tell that the data has changed
         self.msg = can.Message(is_extended_id=can_id > 0x7FF,
                                arbitration_id=can_id,
-                               data=data, is_remote_frame=remote)
+                               data=None if data is None else bytes(data),
+                               is_remote_frame=remote)
         self._start()
 
     def _start(self):
